@@ -1,4 +1,5 @@
 import logging
+import os
 import pickle
 from pathlib import Path
 from typing import Any, Callable
@@ -207,7 +208,7 @@ class Sampler:
         self, source: str | bytes | dict
     ) -> tuple[Samples, dict]:
         """Restore sampler state from a checkpoint source."""
-        if isinstance(source, str):
+        if isinstance(source, (str, os.PathLike)):
             state = self.load_checkpoint_from_file(source)
         elif isinstance(source, bytes):
             state = pickle.loads(source)
